@@ -66,7 +66,7 @@ type Program struct {
 
 // Options steer Generate.  The zero value gives the defaults.
 type Options struct {
-	MaxTypes, MaxOps, MaxFrags, MaxDepth int // 0 => defaults (10 types, 4 ops, 4 frags, selection depth 4)
+	MaxTypes, MaxOps, MaxFrags, MaxDepth int // 0 => defaults (10 types, 4 ops, 4 frags, selection depth 4); MaxFrags < 0 => no fragments
 
 	Adversarial  bool // use the adversarial name pools with higher probability
 	NoDirectives bool // never emit @genqlient comment directives
@@ -81,12 +81,12 @@ type Options struct {
 	// Rates of deliberately risky constructs which the present genqlient is
 	// known (or suspected) to mishandle.  0 => the default rate given below,
 	// <0 => never, n>0 => in about 1 of n programs.
-	RateNoTypeCond      int // inline fragment without type condition (panics genqlient); default 25
+	RateNoTypeCond      int // inline fragment without type condition (panics genqlient); default 30
 	RateIfaceIface      int // interface implementing an interface (rejected); default 8
-	RateGenericAbstract int // with optional:generic, leave abstract / custom-marshaled types nullable (does not compile); default 12; otherwise such types are made non-null
+	RateGenericAbstract int // with optional:generic, leave abstract / custom-marshaled types nullable (does not compile); default 16; otherwise such types are made non-null
 	RateSubGetter       int // subscription together with client_getter (does not compile); default 30; otherwise no subscription when a getter is configured
 	RateBacktick        int // backtick inside a string literal (breaks the generated raw string); default 40
-	RateInvalidDir      int // one deliberately invalid @genqlient placement; default 20
+	RateInvalidDir      int // one deliberately invalid @genqlient placement; default 40
 	RateVarShadow       int // (Adversarial only) a variable named like an imported package; default 10
 }
 
@@ -118,12 +118,12 @@ func (o Options) withDefaults() Options {
 			*p = d
 		}
 	}
-	def(&o.RateNoTypeCond, 25)
+	def(&o.RateNoTypeCond, 30)
 	def(&o.RateIfaceIface, 8)
-	def(&o.RateGenericAbstract, 12)
+	def(&o.RateGenericAbstract, 16)
 	def(&o.RateSubGetter, 30)
 	def(&o.RateBacktick, 40)
-	def(&o.RateInvalidDir, 20)
+	def(&o.RateInvalidDir, 40)
 	def(&o.RateVarShadow, 10)
 	return o
 }
@@ -134,6 +134,14 @@ func Generate(r *proto.Rng, o Options) *Program {
 	g := newPG(r, o.withDefaults())
 	g.run()
 	return g.p
+}
+
+// GenerateSeed is Generate with the generator's own stream of the given
+// seed; it also records the seed in the Program.
+func GenerateSeed(seed uint64, o Options) *Program {
+	p := Generate(proto.NewRng(seed, "gprog", 0), o)
+	p.Seed = seed
+	return p
 }
 
 // OperationsText returns all Defs concatenated (Comment+Text, blank line
